@@ -204,12 +204,33 @@ def unit_workdir(base, unit):
 
 def generated_dir_for(unit, repo, work):
     """units that extract build-script output (prost) need an OUT_DIR; build it on a scratch copy"""
-    if not unit.get("protos"):
+    if not unit.get("protos") and not unit.get("derive_sample"):
         return None
     import protogen
     d = os.path.join(work, "gen-" + unit["name"])
     os.makedirs(d, exist_ok=True)
-    for pr in unit["protos"]:
+    if unit.get("derive_sample"):
+        # run the REAL derive generator (sources copied from /repo's working tree, never edited) on the unit's sample enum
+        dg = os.path.join(VERIF, "tools", "derivegen")
+        gen_src = os.path.join(dg, "src", "gen")
+        os.makedirs(gen_src, exist_ok=True)
+        import fcntl
+        with open(os.path.join(dg, ".lock"), "w") as lk:
+            fcntl.flock(lk, fcntl.LOCK_EX)
+            for fn in ("codegen.rs", "ir.rs", "parse.rs"):
+                src = os.path.join(repo, "ractor_cluster_derive", "src", fn)
+                if not os.path.exists(src):
+                    raise Undecided(f"lost anchor: {src} not found")
+                shutil.copyfile(src, os.path.join(gen_src, fn))
+            rc, so, se, _ = sh(["cargo", "build", "--offline", "--release"], cwd=dg)
+            if rc != 0:
+                raise Undecided("derive generator does not build against the current ractor_cluster_derive sources: " + se[-800:])
+            sample = os.path.join(unit["_dir"], unit["derive_sample"])
+            rc, so, se, _ = sh([os.path.join(dg, "target", "release", "derivegen"), sample])
+            if rc != 0:
+                raise Undecided("derive generator failed on the sample enum: " + se[-800:])
+        open(os.path.join(d, "derive.rs"), "w").write("pub " + open(sample).read() + "\n" + so)
+    for pr in unit.get("protos", []):
         src = os.path.join(repo, pr)
         if not os.path.exists(src):
             raise Undecided(f"lost anchor: {pr} not found")
@@ -254,7 +275,7 @@ def run_verus_unit(unit, repo, work, seed, tier, features=None, tag="", rlimit=3
         gen_text = open(rs).read()
         fails, und = classify(mp, gen_text, diags)
     for sf in mp.get("shape_failures", []):
-        und = und + [sf + " (A-rust: drop order cannot be seen by the verifier)"] if not fails else und
+        und = und + [sf + " (a syntactic shape the contract relies on for something the verifier cannot see: drop order, panic containment)"] if not fails else und
     res["failures"], res["undecided"] = fails, und
     vr = summary.get("verification-results", {})
     res["verified_items"] = vr.get("verified", 0)
@@ -329,6 +350,7 @@ def current_hashes(unit, mp):
     h = {"unit_files": dir_hash(unit["_dir"])}
     for f in mp["functions"]:
         h["fn " + f["key"]] = f["token_hash"]
+        h["loops " + f["key"]] = f.get("n_loops", 0)
     for it in mp["items"]:
         h["item " + it["path"]] = it["token_hash"]
     return h
@@ -422,6 +444,15 @@ def main(argv):
             json.dump(b, open(os.path.join(u["_dir"], "baseline.json"), "w"), indent=1, sort_keys=True)
         base = (baseline_of(u) or {}).get(bkey)
         unchanged = base is not None and base == cur
+        # loop anchors: a function that has MORE loops than at baseline may have its loop contracts attached to the wrong
+        # loop (ordinals shift) -> a failure there is undecided; a loop that disappeared just loses its invariants (noted)
+        shifted = set()
+        for f in mp["functions"]:
+            for d in f.get("dropped_loops", []):
+                notes.append(f"[{r['unit']}] {d}")
+            if base is not None and f["has_contract"] and any(c["kind"].startswith("loop") for c in f["clauses"]):
+                if f.get("n_loops", 0) > base.get("loops " + f["key"], f.get("n_loops", 0)):
+                    shifted.add(f["key"])
         for f in mp["functions"]:
             fprops = f.get("props") or u["serves"]
             if prop not in fprops:
@@ -445,6 +476,9 @@ def main(argv):
                 notes.append(f"[{r['unit']}] (other property) {fl['function']}/{fl['clause']}: {fl['message']}")
                 continue
             fl["unit"] = r["unit"]
+            if fl["function"] in shifted:
+                undecided.append(f"[{r['unit']}] {fl['function']} has more loops than at baseline: loop contracts may be attached to the wrong loop (lost anchor), not a violation")
+                continue
             if unchanged:
                 undecided.append(f"[{r['unit']}] {fl['function']}/{fl['clause'] or 'body'} failed although every extracted item and the unit files equal the committed baseline: solver instability (seed {seed}), not a violation")
                 continue
